@@ -1380,6 +1380,8 @@ impl<T: AbiExportable + ?Sized + 'static> AbiConnection<T> {
         shared_library_path: &str,
         trait_name: &str,
     ) -> Result<unsafe extern "C" fn(flag: AbiProtocol), SavefileError> {
+        #[cfg(avl_savefile_verif)]
+        verif_hooks::at("WantE", 0);
         let mut entry_guard = Guard::lock(&ENTRY_CACHE);
         #[cfg(avl_savefile_verif)]
         let _verif_unlock_e = {
@@ -1550,6 +1552,8 @@ impl<T: AbiExportable + ?Sized + 'static> AbiConnection<T> {
         trait_object: Option<TraitObject>,
         owning: Owning,
     ) -> Result<AbiConnection<T>, SavefileError> {
+        #[cfg(avl_savefile_verif)]
+        verif_hooks::at("WantT", remote_entry as usize as u64);
         let mut templates = Guard::lock(&ABI_CONNECTION_TEMPLATES);
         #[cfg(avl_savefile_verif)]
         let _verif_unlock = {
